@@ -247,6 +247,11 @@ def frame_contract(ctx):
     contracts.wrap_method(ht.Tag, "get_html_string", after=after, ctx=ctx, counter="contract.frame")
 
 
+def _reinstall(ctx):
+    escape.install(ctx)
+    frame_contract(ctx)
+
+
 def run(ctx):
     escape.install(ctx)
     frame_contract(ctx)
@@ -262,6 +267,12 @@ def _run(ctx):
     ctx.require("contract.frame", 1000)
     ctx.require("contract.html_escape", 1000)
     ctx.forbid("second_opinion_disagreements")
+    if ctx.thorough and ctx.shard == 0:
+        from .. import repotests
+
+        contracts.unpatch_all()  # the plugin installs its own monitors in the pytest process
+        repotests.run_under(ctx, ["frame"])
+        _reinstall(ctx)
 
     # 1. one deterministic tree per catalogue name (HTML + SVG + custom), each void name childless and with children
     covered = set()
